@@ -139,7 +139,7 @@ def make_machine(stats):
                         # restore (normal or exceptional exit) must still bring the state back
                         bv = ns.br.BranchingValues()
                         bv.x = rt.PrivVal(1)
-                        cctx = (ns.br.IfContext if "if" in what else ns.br.WhileContext)(ns.bo.PrivValBool(depth % 2), bv)
+                        (ns.br._if if "if" in what else ns.br._while)(ns.bo.PrivValBool(depth % 2), bv)       # the user-level call, context given explicitly
                         machine.leaked.append(bv)
                         if what.endswith("raise"):
                             if depth >= 2:
@@ -426,6 +426,25 @@ def make_machine(stats):
                 self.fail("guarded(cond)(fn)(%r, *%r, key='k', other=...) returned %r" % (a, extra, got[:4]))
             if any(x is not y for x, y in zip(before, self.triple())):
                 self.fail("guard state after a guarded call with keyword arguments is not the state before it")
+
+        @precondition(lambda self: len(self.leaked) > 0)
+        @rule()
+        def collect_garbage(self):
+            """block contexts abandoned with a block still open (an exception went through them) are finalised by the garbage
+            collector at some arbitrary later moment - inside or outside other regions: that moment changes nothing"""
+            self.hist.append(["collect_garbage", len(self.leaked)])
+            import gc
+            import sys
+            before = self.triple()
+            del self.leaked[:]
+            hook = sys.unraisablehook
+            sys.unraisablehook = lambda *a: None          # "unclosed branches left" from __del__ is the library's own warning
+            try:
+                gc.collect()
+            finally:
+                sys.unraisablehook = hook
+            if any(a is not b for a, b in zip(before, self.triple())):
+                self.fail("guard state changed when abandoned block contexts were garbage-collected")
 
         # -- invariant
         def check_inside(self, extra):
